@@ -6,7 +6,7 @@
 From Coq Require Import String.
 From Coq Require Import List NArith ZArith Uint63.
 From HDW Require Import Lib.Outcome Lib.Bytes Run.Pack.
-From HDW Require Import Model.Json Model.SigText Model.Tx Prim.Keccak.
+From HDW Require Import Model.Json Model.JsonText Model.SigText Model.Tx Prim.Keccak.
 Import ListNotations.
 Local Open Scope outcome_scope.
 
@@ -21,6 +21,17 @@ Definition c06_parse (j : json) : list int :=
   out_fields (let* t := tx_of_json j in
               let* h := signing_message keccak256 t in
               Ok [[kind_byte t]; h]).
+
+(** the same from the TEXT of the document ([Model/JsonText.v]); used for documents without floating-point
+    literals only (the reader [no_floats] refuses them) *)
+Definition c06_parse_text (doc : list N) : list int :=
+  out_fields (let* j := json_of_text no_floats doc in
+              let* t := tx_of_json j in
+              let* h := signing_message keccak256 t in
+              Ok [[kind_byte t]; h]).
+
+Definition c06_encode_text (doc : list N) (r s p : N) : list int :=
+  out1 (let* j := json_of_text no_floats doc in let* t := tx_of_json j in encode t (mk_sig r s p)).
 
 (** [tx.encode]: the signed encoding *)
 Definition c06_encode (j : json) (r s p : N) : list int :=
